@@ -201,7 +201,7 @@ class FnSpec:
         self.ghost_tag = {}
 
 
-SECTION_RE = re.compile(r'^(props|safety|attr|mode|sigsub|bodysub|ret|part|sig|requires|ensures|head|tail|loop\s+\d+|after\s+".*"\s*(?:#\d+)?|before\s+".*"\s*(?:#\d+)?|known\s+\w+)\s*:\s*(.*)$')
+SECTION_RE = re.compile(r'^(props|safety|attr|mode|sigsub|bodysub\?|bodysub|ret|part|sig|requires|ensures|head|tail|loop\s+\d+|after\s+".*"\s*(?:#\d+)?|before\s+".*"\s*(?:#\d+)?|known\s+\w+)\s*:\s*(.*)$')
 TAG_RE = re.compile(r'^\[([A-Z0-9, ]*?)(?:\s+([A-Za-z0-9_.-]+))?\]\s*(.*)$', re.S)
 
 
@@ -277,14 +277,17 @@ def parse_fn_block(header, lines):
                 fn.part = ('before', mt.group(1))
         elif key == 'sig':
             fn.sig = first
-        elif key in ('sigsub', 'bodysub'):
+        elif key in ('sigsub', 'bodysub', 'bodysub?'):
             for b in body:
                 b = b.strip()
                 if not b:
                     continue
                 sep = b[0]
                 a, r = b[1:].rstrip(sep).split(sep)[:2] if b.endswith(sep) else b[1:].split(sep)[:2]
-                (fn.sigsubs if key == 'sigsub' else fn.bodysubs).append((a, r))
+                if key == 'bodysub?':
+                    fn.bodysubs.append((a, r, True))
+                else:
+                    (fn.sigsubs if key == 'sigsub' else fn.bodysubs).append((a, r))
         elif key == 'requires':
             fn.requires += parse_clauses(body, 'requires', fn, counter=counter)
         elif key == 'ensures':
@@ -741,8 +744,9 @@ class Generator:
             inserts.append((j, ('LOOPSPEC', spec, inv), 'loopspec'))
             if spec['attr']:
                 inserts.append((mt.start(), '\n'.join(spec['attr']) + '\n', 'ghost'))
-        for a, r in fn.bodysubs + (known['bodysubs'] if known else []):
-            found = False
+        for bs in fn.bodysubs + (known['bodysubs'] if known else []):
+            a, r = bs[0], bs[1]
+            found = len(bs) > 2     # optional rule (bodysub?): fine when the pattern does not occur
             for mt in re.finditer(a, bm):
                 edits.append((mt.start(), mt.end(), keep_newlines(body[mt.start():mt.end()], mt.expand(r))))
                 found = True
